@@ -27,7 +27,8 @@ def ytype(t):
 
 
 class Renderer:
-    def __init__(self, nodes, extra_leaf=None):
+    def __init__(self, nodes, extra_leaf=None, adv_identities=False):
+        self.adv_identities = adv_identities
         self.nodes = {n["p"]: n for n in nodes}
         self.kids = {}
         for n in nodes:
@@ -119,15 +120,17 @@ class Renderer:
             vga += "  augment \"%s\" {\n%s  }\n" % (target, text)
         vga += "}\n"
         vgi = ("module vgi {\n  yang-version 1.1;\n  namespace \"urn:vgi\";\n  prefix vgi;\n\n"
-               "  identity BASE;\n  identity I-ONE { base BASE; }\n  identity I_TWO { base BASE; }\n}\n")
+               "  identity BASE;\n  identity I-ONE { base BASE; }\n  identity I_TWO { base BASE; }\n" +
+               # two identities whose protobuf value numbers (hash of base name + identity name) coincide
+               ("  identity I1vr4b8 { base BASE; }\n  identity Ibu4tnd { base BASE; }\n" if self.adv_identities else "") + "}\n")
         return vg, vga, vgi
 
 
-def write_case(case, outdir, extra_leaf=None):
+def write_case(case, outdir, extra_leaf=None, adv_identities=False):
     """Writes vg.yang / vga.yang for one GEN case; extra_leaf=(parent path, name) adds an unrelated
     leaf (used by the tag-stability check of C28)."""
     os.makedirs(outdir, exist_ok=True)
-    vg, vga, vgi = Renderer(case["nodes"], extra_leaf).render()
+    vg, vga, vgi = Renderer(case["nodes"], extra_leaf, adv_identities).render()
     open(os.path.join(outdir, "vg.yang"), "w").write(vg)
     open(os.path.join(outdir, "vga.yang"), "w").write(vga)
     open(os.path.join(outdir, "vgi.yang"), "w").write(vgi)
